@@ -129,6 +129,10 @@ func (x *Exec) callValue(st *State, fr *Frame, fnv Value, args []Value, dest ssa
 	}
 	fn := fv.fn
 	name := fnName(fn)
+	if ov, ok := st.ghost["$override:"+name]; ok {
+		x.StubsHit["override:"+name]++
+		return x.callValue(st, fr, ov, args, dest, discard)
+	}
 	if h, ok := intrinsics[name]; ok {
 		ret, mode := h(x, st, fr, fn, args)
 		switch mode {
@@ -742,6 +746,9 @@ func (x *Exec) ensureGlobal(st *State, fr *Frame, g *ssa.Global) bool {
 		return false
 	}
 	// harness-package globals written by the harness itself start as zero
+	buildMu.Lock()
+	g.Pkg.Build()
+	buildMu.Unlock()
 	initFn := g.Pkg.Func("init")
 	if initFn == nil || len(initFn.Blocks) == 0 {
 		return false
